@@ -30,7 +30,7 @@ func (w *World) registryRows() ([]regRow, []string) {
 		kinds[v] = n
 	}
 	for _, fn := range w.LibFuncs() {
-		for _, c := range w.callsIn(fn, "stanza.registry.MapExtension") {
+		for _, c := range w.callsInH(fn, "stanza.registry.MapExtension") {
 			args := c.Common().Args
 			k, isC := intConst(args[1])
 			if !isC {
@@ -136,7 +136,7 @@ func (w *World) decodeTablesOf(fn *ssa.Function) decodeTables {
 		}
 	}
 	// children: comparisons of tt.Name.Local with constants, tt a start element taken from Token
-	toks := w.callsIn(fn, "encoding/xml.Decoder.Token")
+	toks := w.callsInH(fn, "encoding/xml.Decoder.Token")
 	if len(toks) == 1 {
 		tok := toks[0].(ssa.Instruction)
 		isTok := func(in ssa.Instruction) bool { return in == tok }
